@@ -7,7 +7,8 @@
 (k) Pause-point schedules on a KillableThread subclass: kill() is performed
     while the thread is held at every reached line of threads.py (before the
     body, in the body, in the exception / finish handlers), kill before start,
-    kill after exit, and the converse (the killer held inside kill()).
+    kill after exit, the converse (the killer held inside kill()), and two
+    overlapping kills after the body returned.
 """
 import itertools
 import os
@@ -85,6 +86,12 @@ def enumerated(tier):
               continue
             yield {'k': 't', 'pos': pos, 'timeout': tmo, 'end': end,
                    'repeat': rep, 'own': own}
+  # the phase after the timed-out one (a teardown phase) ends terminally too
+  for pos in ('main', 'teardown'):
+    for end in ('never', 'unkillable', '+P+eps'):
+      for tmo in (10, 1):
+        yield {'k': 't', 'pos': pos, 'timeout': tmo, 'end': end, 'repeat': False,
+               'own': 'C', 'after_raises': True}
   # with phase profiling switched on (execute(profile_filename=...))
   for pos in ('plain', 'main'):
     for end in ('-2P', 'never', 'unkillable', 'early_slow_exit'):
@@ -96,10 +103,10 @@ def enumerated(tier):
       yield {'k': 'm', 'pos': pos, 'repeat': rep}
   for scen in ('kill_at_target_line', 'held_in_kill', 'kill_before_start',
                'kill_after_exit', 'kill_twice', 'kill_raising_body',
-               'kill_mid_body'):
+               'kill_mid_body', 'two_killers'):
     n = 80 if scen in ('kill_at_target_line', 'held_in_kill',
                        'kill_raising_body') else 6 if scen == 'kill_mid_body' \
-        else 1
+        else 40 if scen == 'two_killers' else 1
     for idx in range(n):
       yield {'k': 'k', 'scenario': scen, 'idx': idx}
 
@@ -180,6 +187,10 @@ def run_timing(case):
   @H.measures(H.Measurement('shared'))
   def after(test):
     log.add('start', 'after', 0, vc.monotonic())
+    if case.get('after_raises'):
+      # a later teardown phase ends terminally as well: the time-out came first
+      log.add('end', 'after', 0, vc.monotonic())
+      raise RuntimeError('device does not answer the clean-up command either')
     if end == 'unkillable_acts':
       release.set()
       t_end = time.monotonic() + 5
@@ -277,7 +288,7 @@ def run_timing(case):
     pm.prune_handlers()
   wall = time.monotonic() - wall0
   ctx = {'case': {k: case.get(k) for k in ('pos', 'timeout', 'end', 'repeat', 'own',
-                                           'profile')},
+                                           'profile', 'after_raises')},
          'deadline': d, 'P': P}
 
   def bad(mech, **k):
@@ -587,6 +598,83 @@ def run_kill(case):
         bad('body-neither-killed-nor-finished')
       if ('finished',) not in events:
         bad('finish-handler-missing')
+    elif scen == 'two_killers':
+      # The body has returned; the thread is still alive in its finish handler.
+      # Killer 1 is held at a line of kill() while killer 2 calls kill(): neither
+      # request may have an effect on the handlers.
+      park = threading.Event()
+
+      def parked_thread():
+        th = make_thread(events, 'none')
+        real_finished = th._thread_finished  # pylint: disable=protected-access
+
+        def finished():
+          try:
+            events.append(('parked',))
+            park.wait(3)
+          except T.ThreadTerminationError:
+            events.append(('handler_killed',))
+            raise
+          real_finished()
+        th._thread_finished = finished  # pylint: disable=protected-access
+        return th
+
+      key = (scen,)
+      if key not in _POINTS:
+        th = parked_thread()
+        eng.arm(None)
+        eng.enabled = True
+        try:
+          th.start()
+          while ('parked',) not in events:
+            time.sleep(0.0002)
+          killer = threading.Thread(target=th.kill, name='vf-killer')
+          killer.start()
+          killer.join(10)
+          park.set()
+          th.join(10)
+        finally:
+          eng.enabled = False
+        _POINTS[key] = sorted(p for p in eng.points(max_hits=2) if p[0][0] == 'C')
+        del events[:]
+        del escaped[:]
+        park.clear()
+      pts = _POINTS[key]
+      if case['idx'] >= len(pts):
+        return {'sig': None, 'violations': [], 'counters': {}, 'evaluations': 0,
+                'sample': False}
+      target = pts[case['idx']]
+      ctx['point'] = [list(target[0]), target[1]]
+      th = parked_thread()
+      eng.arm(target)
+      eng.enabled = True
+      info = {}
+      try:
+        th.start()
+        while ('parked',) not in events:
+          time.sleep(0.0002)
+        killer = threading.Thread(target=th.kill, name='vf-killer')
+        killer.start()
+        info = eng.run_action_at_pause(th.kill, wait_s=3, hold_s=0.3)
+        killer.join(10)
+        time.sleep(0.01)
+        park.set()
+        th.join(10)
+      finally:
+        eng.release()
+        eng.enabled = False
+        park.set()
+      c['kill_schedules'] = 1 if info.get('reached') else 0
+      c['pause_not_reached'] = 0 if info.get('reached') else 1
+      c['kills_performed'] = 2 if info.get('reached') else 1
+      if th.is_alive():
+        bad('thread-still-alive')
+      if ('handler_killed',) in events or escaped:
+        bad('kill-after-body-returned-reached-the-handlers', escaped=escaped[:2])
+      elif info.get('reached'):
+        c['kills_without_effect'] = 1
+      if ('finished',) not in events:
+        bad('finish-handler-did-not-complete')
     elif scen == 'kill_twice':
       th = make_thread(events, 'loop')
       th.start()
